@@ -12,8 +12,8 @@ open Fabio.Model.C16 Fabio.Model.C16.Serve Fabio.Lemmas.C16 Fabio.Lemmas.C16Serv
 /-! ### 1. the gates -/
 
 /-- `Stream` answers `PermissionDenied` when the target's access rules deny the peer — whatever the auth scheme
-says —, `Unauthenticated` when they admit it and the auth scheme rejects the call, and lets the call through
-exactly when the rules admit the peer and the scheme accepts. -/
+says —, `Unauthenticated` when they let it in and the auth scheme rejects the call, and lets the call through
+exactly when the rules let the peer in and the scheme accepts. -/
 theorem gate_order (denied : Tgt → Bool) (auth : Tgt → MD → Bool) (t : Tgt) (md : MD) :
     (denied t = true → gateOf denied auth t md = some codePermissionDenied) ∧
     (denied t = false → auth t md = false → gateOf denied auth t md = some codeUnauthenticated) ∧
